@@ -19,6 +19,7 @@ import (
 	assetstypes "github.com/ExocoreNetwork/exocore/x/assets/types"
 	delegationtypes "github.com/ExocoreNetwork/exocore/x/delegation/types"
 	operatortypes "github.com/ExocoreNetwork/exocore/x/operator/types"
+	oracletypes "github.com/ExocoreNetwork/exocore/x/oracle/types"
 
 	"verif/sim"
 )
@@ -537,4 +538,81 @@ func Position(l *sim.Ledger, stakerID, assetID, operator string) sdkmath.Int {
 
 func stakingCommission() stakingtypes.Commission {
 	return stakingtypes.NewCommission(sdk.ZeroDec(), sdk.OneDec(), sdk.OneDec())
+}
+
+// AVSSpec describes an AVS registered through the precompile by an EOA acting as the AVS contract.
+type AVSSpec struct {
+	Owner      *sim.Account // the EOA that is the AVS address and its owner
+	Name       string
+	Assets     []string
+	MinSelf    uint64
+	EpochID    string
+	Unbonding  uint64
+	TaskAddr   common.Address
+}
+
+// RegisterAVS registers an AVS through the AVS precompile; the AVS address is the caller (an EOA here).
+func (w *World) RegisterAVS(a AVSSpec) *Step {
+	st := w.newStep("register_avs", "evm")
+	st.P["avs"], st.P["epoch"], st.P["minself"] = a.Owner.Eth.String(), a.EpochID, fmt.Sprint(a.MinSelf)
+	st.Extra = a
+	ctx := w.C.Ctx()
+	bz, err := w.C.PrecompileTx(ctx, a.Owner, "avs", sim.AddrAVS, "registerAVS",
+		a.Owner.Eth, a.Name, uint64(1), a.TaskAddr, common.HexToAddress("0x0000000000000000000000000000000000000902"), common.HexToAddress("0x0000000000000000000000000000000000000903"),
+		[]string{a.Owner.Acc.String()}, a.Assets, a.Unbonding, a.MinSelf, a.EpochID, []uint64{1, 1, 5, 5})
+	if err != nil {
+		st.Fail, st.Err = true, "build: "+err.Error()
+		return w.finish(st)
+	}
+	n := len(w.C.Panics)
+	res, ok := w.C.DeliverTx(bz)
+	if !ok {
+		st.Panic, st.Fail = w.C.Panics[n].Value, true
+		return w.finish(st)
+	}
+	st.TxRes = &res
+	er := sim.DecodeEthResult(res)
+	st.Eth = &er
+	if er.Failed || !sim.PrecompileSuccess("avs", "registerAVS", er) {
+		st.Fail = true
+		st.Err = fmt.Sprintf("code %d vmerr %q ret %x log %s", er.Code, er.VmError, er.Ret, trunc(er.Log, 200))
+	} else {
+		st.Ack = true
+	}
+	return w.finish(st)
+}
+
+// PriceStep appends a new price round for a token directly through the oracle keeper (the write a
+// finalised oracle round performs).
+func (w *World) PriceStep(tokenID uint64, price string, decimal int32) *Step {
+	st := w.newStep("price", "keeper")
+	st.P["token"], st.P["price"], st.P["decimal"] = fmt.Sprint(tokenID), price, fmt.Sprint(decimal)
+	w.keeperStep(st, func(ctx sdk.Context) error {
+		next := w.C.App.OracleKeeper.GetNextRoundID(ctx, tokenID)
+		if !w.C.App.OracleKeeper.AppendPriceTR(ctx, tokenID, oracletypes.PriceTimeRound{Price: price, Decimal: decimal, Timestamp: "", RoundID: next}) {
+			return fmt.Errorf("AppendPriceTR refused")
+		}
+		return nil
+	})
+	return w.finish(st)
+}
+
+// GovStep executes msg the way x/gov executes the messages of a passed proposal: through the message
+// service router on a cache of the block context, written only on success.
+func (w *World) GovStep(kind string, msg sdk.Msg) *Step {
+	st := w.newStep(kind, "gov")
+	st.Extra = msg
+	w.keeperStep(st, func(ctx sdk.Context) error {
+		h := w.C.App.MsgServiceRouter().Handler(msg)
+		if h == nil {
+			return fmt.Errorf("no handler for %T", msg)
+		}
+		cc, write := ctx.CacheContext()
+		if _, err := h(cc, msg); err != nil {
+			return err
+		}
+		write()
+		return nil
+	})
+	return w.finish(st)
 }
